@@ -305,6 +305,11 @@ def num_binop(op, a, b):
             if b == Fraction(1, 2):
                 raise Unsupported("x ** 0.5 (use the sqrt model)")
         raise Unsupported("symbolic power")
+    if op in ("|", "&", "^") and all((is_sym(x_) and z3.is_bool(x_)) or isinstance(x_, (bool, np.bool_)) for x_ in (a, b)):
+        a, b = (bool(a) if isinstance(a, np.bool_) else a), (bool(b) if isinstance(b, np.bool_) else b)
+        # boolean masks combined with the bitwise operators (numpy style: (e < 1) | (e > 103))
+        pa, pb = (z3.BoolVal(a) if isinstance(a, bool) else a), (z3.BoolVal(b) if isinstance(b, bool) else b)
+        return simp({"|": z3.Or, "&": z3.And, "^": z3.Xor}[op](pa, pb))
     az, bz = _unify(a, b)
     if z3.is_bv(az):
         return {"+": lambda: az + bz, "-": lambda: az - bz, "*": lambda: az * bz, "<<": lambda: az << bz,
@@ -322,7 +327,7 @@ def num_binop(op, a, b):
         return py_floordiv(az, bz)
     if op == "%":
         return py_mod(az, bz)
-    raise Unsupported(f"operator {op} on symbolic operands")
+    raise Unsupported(f"operator {op} on symbolic operands ({type(a).__name__}: {str(a)[:40]}, {type(b).__name__}: {str(b)[:40]})")
 
 
 def num_cmp(op, a, b):
